@@ -170,8 +170,9 @@ Next ==
      CASE e.ev = "reset" ->
             /\ truth' = e.truth /\ hasTruth' = e.hastruth /\ proj' = EmptyProj /\ txns' = <<>> /\ held' = {} /\ acked' = {} /\ kind' = e.kind /\ lossless' = e.lossless /\ lostCommit' = {} /\ fixp' = EmptyProj
        [] e.ev = "rpc" ->
-            \* a commit-point request (2PC: Commit) whose outcome the client could not learn
-            LET lost == IF e.cmd = "Commit" /\ e.fault \in {"drop_req", "drop_resp", "crash_before", "crash_after", "undetermined"} THEN {e.req.start} ELSE {}
+            \* a commit-point request (2PC: Commit; async commit and 1PC: every Prewrite that asks for them) whose outcome the client could not learn
+            LET commitPoint == e.cmd = "Commit" \/ (e.cmd = "Prewrite" /\ (e.req.async \/ e.req.onepc))
+                lost == IF commitPoint /\ e.fault \in {"drop_req", "drop_resp", "crash_before", "crash_after", "undetermined"} THEN {e.req.start} ELSE {}
             IN IF e.executed
                THEN /\ (kind # "c14rt" => StateRules(e.proj)) /\ HeldRule(e.proj) /\ proj' = e.proj /\ lostCommit' = lostCommit \cup lost
                     /\ UNCHANGED <<truth, txns, held, acked, hasTruth, kind, lossless, fixp>>
